@@ -1,6 +1,716 @@
-//! C26 — not built yet.
-use vcommon::Args;
+//! C26 — method dispatch answers each call exactly once and correctly.
+//!
+//! Space (programs x inputs): every method of the generated interface bank (`bank.rs`, produced by
+//! engines/gen/ifaces.py) x call kinds {correct with every argument tuple of the leaf domains;
+//! wrong path (unknown, other registered path, intermediate node, child); wrong interface
+//! (unknown, sibling on the same path, a standard interface); wrong member (unknown, Rust
+//! spelling, member of another interface); each argument replaced by every other type; missing /
+//! extra argument; arguments wrapped into one struct / a struct argument flattened; interface
+//! header omitted} x NoReplyExpected {off, on}.
+//!
+//! Calls are marshalled by the harness' own reference encoder and pushed as raw bytes into the
+//! server connection's socket; replies are read off the server's raw output with the reference
+//! parser/decoder. zbus is only the subject (server side); the client connection of the pair idles.
 
-pub fn main(_args: &Args) -> i32 {
-    vcommon::machinery_failure("C26: check not built yet")
+use std::collections::{BTreeMap, BTreeSet};
+
+use serde_json::json;
+use vcommon::{catch, hash64, par_for, Args, Report, Violation};
+
+use crate::{
+    bank::{self, *},
+    world::{Link, World},
+};
+
+pub const E_UNKNOWN_OBJECT: &str = "org.freedesktop.DBus.Error.UnknownObject";
+pub const E_UNKNOWN_INTERFACE: &str = "org.freedesktop.DBus.Error.UnknownInterface";
+pub const E_UNKNOWN_METHOD: &str = "org.freedesktop.DBus.Error.UnknownMethod";
+pub const E_INVALID_ARGS: &str = "org.freedesktop.DBus.Error.InvalidArgs";
+pub const E_FAILED: &str = "org.freedesktop.DBus.Error.Failed";
+
+pub const STANDARD_IFACES: &[&str] = &[
+    "org.freedesktop.DBus.Peer",
+    "org.freedesktop.DBus.Introspectable",
+    "org.freedesktop.DBus.Properties",
+];
+
+/// A world with a p2p pair whose server side carries the bank in its standard layout.
+pub struct BankWorld {
+    pub w: World,
+    pub client: zbus::Connection,
+    pub server: zbus::Connection,
+    pub link: Link,
+    pub reg: Registered,
+    pub next_serial: u32,
+}
+
+impl BankWorld {
+    pub fn new_empty() -> Self {
+        let mut w = World::new();
+        let (client, server, link) = w.p2p_pair();
+        Self {
+            w,
+            client,
+            server,
+            link,
+            reg: Registered {
+                log: Log::default(),
+                states: BTreeMap::new(),
+            },
+            next_serial: 100,
+        }
+    }
+
+    pub fn new() -> Self {
+        let mut b = Self::new_empty();
+        let s = b.server.clone();
+        let reg = b
+            .w
+            .complete("register", async move { register_layout(&s).await })
+            .unwrap_or_else(|| vcommon::machinery_failure("bank registration did not complete"))
+            .unwrap_or_else(|e| vcommon::machinery_failure(&format!("bank registration failed: {e}")));
+        b.reg = reg;
+        b
+    }
+
+    pub fn register(&mut self, iface: usize, path: &str) {
+        let s = self.server.clone();
+        let p = path.to_string();
+        let mut reg = std::mem::replace(
+            &mut self.reg,
+            Registered {
+                log: Log::default(),
+                states: BTreeMap::new(),
+            },
+        );
+        let out = self.w.complete("register-one", async move {
+            let r = register_one(&s, &mut reg, iface, &p).await;
+            (reg, r)
+        });
+        match out {
+            Some((reg, Ok(true))) => self.reg = reg,
+            Some((_, r)) => vcommon::machinery_failure(&format!("registering I{iface} at {path}: {r:?}")),
+            None => vcommon::machinery_failure("registration did not complete"),
+        }
+    }
+
+    pub fn serial(&mut self) -> u32 {
+        self.next_serial += 1;
+        self.next_serial
+    }
+
+    /// Push raw bytes to the server, run to quiescence, return what the server wrote meanwhile.
+    pub fn exchange(&mut self, bytes: &[u8]) -> Vec<u8> {
+        let off = self.link.b2a.written_len();
+        self.link.a2b.push(bytes, vec![]);
+        self.w.settle();
+        self.link.b2a.with(|c| c.written[off..].to_vec())
+    }
+
+    /// Everything the server wrote since `off`.
+    pub fn server_output_since(&self, off: usize) -> Vec<u8> {
+        self.link.b2a.with(|c| c.written[off..].to_vec())
+    }
+}
+
+/// The set of object paths that exist in a tree with these registered paths (all prefixes).
+pub fn tree_paths(registered: &[&str]) -> BTreeSet<String> {
+    let mut out = BTreeSet::new();
+    out.insert("/".to_string());
+    for p in registered {
+        let mut cur = String::new();
+        for part in p.split('/').filter(|x| !x.is_empty()) {
+            cur.push('/');
+            cur.push_str(part);
+            out.insert(cur.clone());
+        }
+    }
+    out
+}
+
+/// What the reference model says must happen.
+#[derive(Clone, Debug, PartialEq)]
+pub enum Model {
+    /// Handler runs once with these arguments on this instance; reply per `Expect`.
+    Handled { call: Call, expect: Expect },
+    /// No handler; one of the standard errors.
+    Std(&'static str),
+    /// Interface header omitted: the specification leaves the choice to the server. If the
+    /// handler runs it must be this one.
+    Unspecified { call: Call, expect: Expect },
+}
+
+/// Reference dispatch model for the standard layout.
+pub fn model(c: &CallSpec) -> Model {
+    let layout: Vec<&str> = ALL_PATHS.to_vec();
+    let tree = tree_paths(&layout);
+    let path = c.path.as_deref().unwrap_or("");
+    if !tree.contains(path) {
+        return Model::Std(E_UNKNOWN_OBJECT);
+    }
+    let here: Vec<&IfaceDesc> = IFACES.iter().filter(|d| d.paths.contains(&path)).collect();
+    let member = c.member.as_deref().unwrap_or("");
+    let declared = |m: &MethodDesc| m.ins.concat();
+    let handled = |m: &MethodDesc| {
+        let call = Call {
+            id: m.id,
+            inst: inst_of_path(path),
+            args: c.args.clone(),
+        };
+        (call, expected(m, &c.args))
+    };
+    match c.iface.as_deref() {
+        None => {
+            let cands: Vec<&MethodDesc> = METHODS
+                .iter()
+                .filter(|m| here.iter().any(|d| d.idx == m.iface) && m.member == member)
+                .collect();
+            match cands.as_slice() {
+                [m] if declared(m) == c.sig => {
+                    let (call, expect) = handled(m);
+                    Model::Unspecified { call, expect }
+                }
+                _ => Model::Std(E_UNKNOWN_METHOD),
+            }
+        }
+        Some(i) => {
+            if STANDARD_IFACES.contains(&i) {
+                return Model::Std(E_UNKNOWN_METHOD);
+            }
+            let Some(d) = here.iter().find(|d| d.name == i) else {
+                return Model::Std(E_UNKNOWN_INTERFACE);
+            };
+            let Some(m) = METHODS.iter().find(|m| m.iface == d.idx && m.member == member) else {
+                return Model::Std(E_UNKNOWN_METHOD);
+            };
+            if declared(m) != c.sig {
+                return Model::Std(E_INVALID_ARGS);
+            }
+            let (call, expect) = handled(m);
+            Model::Handled { call, expect }
+        }
+    }
+}
+
+/// What was observed for one call.
+#[derive(Clone, Debug)]
+pub struct Observed {
+    pub log: Vec<Call>,
+    /// Messages the server wrote that answer this call's serial.
+    pub replies: Vec<WireMsg>,
+    pub other_msgs: usize,
+    pub parse_error: Option<String>,
+    pub panic: Option<String>,
+}
+
+pub fn run_call(b: &mut BankWorld, c: &CallSpec) -> Observed {
+    b.reg.take_log();
+    let bytes = c.to_bytes();
+    let out = catch(|| b.exchange(&bytes));
+    let log = b.reg.take_log();
+    let mut o = Observed {
+        log,
+        replies: vec![],
+        other_msgs: 0,
+        parse_error: None,
+        panic: None,
+    };
+    match out {
+        Err(p) => o.panic = Some(format!("{p} at {}", vcommon::last_panic_location())),
+        Ok(bytes) => match parse_stream(&bytes) {
+            Err(e) => o.parse_error = Some(e),
+            Ok(msgs) => {
+                for m in msgs {
+                    if m.reply_serial == Some(c.serial) && (m.mtype == T_RETURN || m.mtype == T_ERROR) {
+                        o.replies.push(m);
+                    } else {
+                        o.other_msgs += 1;
+                    }
+                }
+            }
+        },
+    }
+    o
+}
+
+fn short_err(name: &str) -> &str {
+    name.rsplit('.').next().unwrap_or(name)
+}
+
+/// Class of an observation for outcome statistics and violation features.
+pub fn observed_class(o: &Observed) -> String {
+    if o.panic.is_some() {
+        return "panic".into();
+    }
+    match o.replies.as_slice() {
+        [] => "no-reply".into(),
+        [m] if m.mtype == T_RETURN => "return".into(),
+        [m] => m.error_name.clone().unwrap_or_else(|| "error-without-name".into()),
+        more => format!("{}-replies", more.len()),
+    }
+}
+
+pub fn model_class(m: &Model) -> String {
+    match m {
+        Model::Handled { expect: Expect::Reply(_), .. } => "return".into(),
+        Model::Handled { expect: Expect::Error { name, .. }, .. } => format!("handler-error:{}", short_err(name)),
+        Model::Std(n) => n.to_string(),
+        Model::Unspecified { .. } => "unspecified(no-interface)".into(),
+    }
+}
+
+/// Reply body check: signature is the declared output signature (a struct result may travel as
+/// the struct or as its fields — same bytes) and the reference decoder yields the expected values.
+fn check_return(m: &WireMsg, want: &[Val], out_sig: &str) -> Result<(), String> {
+    let flat = want.iter().map(|v| v.sig()).collect::<String>();
+    let ok_sig = m.sig == flat || m.sig == out_sig;
+    if !ok_sig {
+        return Err(format!("reply signature {:?}, declared {:?}", m.sig, out_sig));
+    }
+    let got = dec_body(&m.sig, &m.body).map_err(|e| format!("reply body does not decode under {:?}: {e}", m.sig))?;
+    let got_flat = match got.as_slice() {
+        [Val::St(f)] if m.sig != flat => f.clone(),
+        _ => got.clone(),
+    };
+    if got_flat != want {
+        return Err(format!("reply values {got:?}, expected {want:?}"));
+    }
+    Ok(())
+}
+
+fn check_error(m: &WireMsg, name: &str, msg: Option<&str>) -> Result<(), (String, String)> {
+    let got = m.error_name.clone().unwrap_or_default();
+    if got != name {
+        return Err(("error-name".into(), format!("error name {got:?}, expected {name:?}")));
+    }
+    if let Some(want) = msg {
+        match dec_body(&m.sig, &m.body) {
+            Ok(v) if v.first() == Some(&Val::S(want.to_string())) => {}
+            other => {
+                return Err((
+                    "handler-error".into(),
+                    format!("error body {other:?} (signature {:?}), expected message {want:?}", m.sig),
+                ))
+            }
+        }
+    }
+    Ok(())
+}
+
+/// Evaluate the oracle; returns (clause, text) for every failed clause.
+pub fn judge(c: &CallSpec, model: &Model, o: &Observed) -> Vec<(String, String)> {
+    let mut bad = vec![];
+    if let Some(p) = &o.panic {
+        bad.push(("no-panic".to_string(), format!("dispatch panicked: {p}")));
+        return bad;
+    }
+    if let Some(e) = &o.parse_error {
+        bad.push(("reply-wellformed".to_string(), format!("server output does not parse: {e}")));
+        return bad;
+    }
+    let no_reply = c.flags & F_NO_REPLY != 0;
+    // handler runs exactly when everything matches
+    let (want_log, strict_handler): (Vec<Call>, bool) = match model {
+        Model::Handled { call, .. } => (vec![call.clone()], true),
+        Model::Std(_) => (vec![], true),
+        Model::Unspecified { call, .. } => (vec![call.clone()], false),
+    };
+    let handler_ran = !o.log.is_empty();
+    if strict_handler {
+        if o.log != want_log {
+            bad.push((
+                "handler-iff-match".into(),
+                format!("handler log {:?}, expected {:?}", o.log, want_log),
+            ));
+        }
+    } else if handler_ran && o.log != want_log {
+        bad.push((
+            "handler-iff-match".into(),
+            format!("handler log {:?}, expected nothing or {:?}", o.log, want_log),
+        ));
+    }
+    // exactly one reply / at most one and none on the success path
+    let success = match model {
+        Model::Handled { expect: Expect::Reply(_), .. } => true,
+        Model::Unspecified { expect: Expect::Reply(_), .. } => handler_ran,
+        _ => false,
+    };
+    let n = o.replies.len();
+    if !no_reply && n != 1 {
+        bad.push(("reply-count".into(), format!("{n} replies to a call that expects one")));
+    }
+    if no_reply && (n > 1 || (success && n != 0)) {
+        bad.push((
+            "reply-count".into(),
+            format!("{n} replies to a NoReplyExpected call (success path: {success})"),
+        ));
+    }
+    // A handler that ran although nothing matched explains whatever reply follows; it is reported
+    // once, under handler-iff-match.
+    if matches!(model, Model::Std(_)) && handler_ran {
+        return bad;
+    }
+    // content of the reply (every reply present is checked)
+    for r in &o.replies {
+        let want: &Expect;
+        let std_err;
+        let m_out_sig;
+        match model {
+            Model::Handled { call, expect } => {
+                want = expect;
+                m_out_sig = METHODS[call.id as usize].out_sig;
+            }
+            Model::Unspecified { call, expect } if handler_ran => {
+                want = expect;
+                m_out_sig = METHODS[call.id as usize].out_sig;
+            }
+            Model::Unspecified { .. } => {
+                // not dispatched: any of the four standard errors is acceptable
+                let name = r.error_name.clone().unwrap_or_default();
+                let std = [E_UNKNOWN_OBJECT, E_UNKNOWN_INTERFACE, E_UNKNOWN_METHOD, E_INVALID_ARGS];
+                if r.mtype != T_ERROR || !std.contains(&name.as_str()) {
+                    bad.push((
+                        "error-name".into(),
+                        format!(
+                            "a call without interface header that was not dispatched is answered with {:?}, not one of the standard errors",
+                            observed_class(o)
+                        ),
+                    ));
+                }
+                continue;
+            }
+            Model::Std(name) => {
+                std_err = Expect::Error { name, msg: String::new() };
+                if r.mtype != T_ERROR {
+                    bad.push(("reply-kind".into(), format!("method return where {name} is due")));
+                } else if let Err((cl, t)) = check_error(r, name, None) {
+                    bad.push((cl, t));
+                }
+                let _ = std_err;
+                continue;
+            }
+        }
+        match want {
+            Expect::Reply(vals) => {
+                if r.mtype != T_RETURN {
+                    bad.push((
+                        "reply-kind".into(),
+                        format!("error {:?} where the handler's result is due", r.error_name),
+                    ));
+                } else if let Err(t) = check_return(r, vals, m_out_sig) {
+                    bad.push(("reply-body".into(), t));
+                }
+            }
+            Expect::Error { name, msg } => {
+                if r.mtype != T_ERROR {
+                    bad.push(("reply-kind".into(), "method return where the handler's error is due".into()));
+                } else if let Err((_, t)) = check_error(r, name, Some(msg)) {
+                    bad.push(("handler-error".into(), t));
+                }
+            }
+        }
+    }
+    bad
+}
+
+/// How the sent body signature relates to the declared input signature.
+pub fn sig_relation(declared: &str, sent: &str) -> &'static str {
+    let strip = |s: &str| -> Option<String> {
+        let parts = split_sig(s).ok()?;
+        match parts.as_slice() {
+            [one] if one.starts_with('(') => Some(one[1..one.len() - 1].to_string()),
+            _ => None,
+        }
+    };
+    if declared == sent {
+        "equal"
+    } else if declared.is_empty() {
+        "declared-empty"
+    } else if strip(sent).as_deref() == Some(declared) || strip(declared).as_deref() == Some(sent) {
+        "outer-struct-only"
+    } else {
+        "different"
+    }
+}
+
+/// One enumerated case.
+#[derive(Clone, Debug)]
+pub struct Case {
+    pub method: u16,
+    pub kind: &'static str,
+    pub call: CallSpec,
+}
+
+fn arg_tuples(ins: &[&str], full: bool) -> Vec<Vec<Val>> {
+    let doms: Vec<Vec<Val>> = ins.iter().map(|s| domain(s)).collect();
+    let dims: Vec<usize> = doms.iter().map(|d| if full { d.len() } else { d.len().min(2) }).collect();
+    let mut out = vec![];
+    vcommon::enumerate::product(&dims, |ix| {
+        out.push(ix.iter().enumerate().map(|(i, k)| doms[i][*k].clone()).collect());
+    });
+    out
+}
+
+fn wrong_values(declared: &str) -> Vec<Val> {
+    let all = [
+        Val::U(4),
+        Val::S("w".into()),
+        Val::St(vec![Val::U(4), Val::S("w".into())]),
+        Val::As(vec!["w".into()]),
+        Val::V(Box::new(Val::U(4))),
+        Val::I(4),
+        Val::O("/w".into()),
+        Val::St(vec![Val::S("w".into()), Val::U(4)]),
+        Val::St(vec![Val::U(4)]),
+    ];
+    all.into_iter().filter(|v| v.sig() != declared).collect()
+}
+
+/// All cases of one method (serials are assigned when run).
+pub fn cases_of(m: &MethodDesc, thorough: bool) -> Vec<Case> {
+    let d = &IFACES[m.iface];
+    let mut out = vec![];
+    let mut add = |kind: &'static str, call: CallSpec| {
+        for flags in [0u8, F_NO_REPLY] {
+            let mut c = call.clone();
+            c.flags = flags;
+            out.push(Case { method: m.id, kind, call: c });
+        }
+    };
+    let tuples = arg_tuples(m.ins, true);
+    let few = arg_tuples(m.ins, false);
+    let neg: &Vec<Vec<Val>> = if thorough { &tuples } else { &few };
+    // correct calls on every registration of the interface
+    for path in d.paths {
+        for t in &tuples {
+            add("ok", CallSpec::new(0, path, d.name, m.member, t.clone()));
+        }
+    }
+    let path = d.paths[0];
+    let base = |args: &Vec<Val>| CallSpec::new(0, path, d.name, m.member, args.clone());
+    for t in neg {
+        // wrong path
+        let mut c = base(t);
+        c.path = Some("/nope".into());
+        add("path-unknown", c);
+        let mut c = base(t);
+        c.path = Some(format!("{path}/zz"));
+        add("path-unknown-child", c);
+        for other in ALL_PATHS.iter().filter(|p| !d.paths.contains(p)) {
+            let mut c = base(t);
+            c.path = Some(other.to_string());
+            add("path-other-registered", c);
+        }
+        for inter in ["/", "/other", "/other/deep"] {
+            let mut c = base(t);
+            c.path = Some(inter.into());
+            add("path-intermediate-node", c);
+        }
+        // wrong interface
+        let mut c = base(t);
+        c.iface = Some("x.bank.Nope".into());
+        add("iface-unknown", c);
+        for sib in IFACES.iter().filter(|s| s.idx != d.idx && s.paths.contains(&path)) {
+            let mut c = base(t);
+            c.iface = Some(sib.name.into());
+            add("iface-sibling", c);
+        }
+        let far = IFACES.iter().find(|s| !s.paths.contains(&path)).unwrap();
+        let mut c = base(t);
+        c.iface = Some(far.name.into());
+        add("iface-registered-elsewhere", c);
+        let mut c = base(t);
+        c.iface = Some("org.freedesktop.DBus.Peer".into());
+        add("iface-standard", c);
+        // wrong member
+        let mut c = base(t);
+        c.member = Some("Nope".into());
+        add("member-unknown", c);
+        let mut c = base(t);
+        c.member = Some(m.rust.into());
+        add("member-rust-spelling", c);
+        let other = METHODS.iter().find(|o| o.iface != m.iface && o.ins == m.ins).unwrap_or(&METHODS[0]);
+        if other.iface != m.iface {
+            let mut c = base(t);
+            c.member = Some(other.member.into());
+            add("member-of-other-iface", c);
+        }
+        // interface header omitted
+        let mut c = base(t);
+        c.iface = None;
+        add("no-interface", c);
+        // arguments
+        for i in 0..t.len() {
+            for w in wrong_values(m.ins[i]) {
+                let mut a = t.clone();
+                a[i] = w;
+                add("arg-wrong-type", base(&a));
+            }
+        }
+        if !t.is_empty() {
+            let mut a = t.clone();
+            a.pop();
+            add("arg-missing-last", base(&a));
+            if t.len() == 2 {
+                let mut a = t.clone();
+                a.remove(0);
+                add("arg-missing-first", base(&a));
+                add("arg-all-missing", base(&vec![]));
+                let mut a = t.clone();
+                a.swap(0, 1);
+                if a[0].sig() != t[0].sig() {
+                    add("arg-swapped", base(&a));
+                }
+            }
+            // all arguments wrapped into one struct
+            add("arg-wrapped-in-struct", base(&vec![Val::St(t.clone())]));
+            // a struct argument flattened into its fields
+            if let Some(pos) = t.iter().position(|v| matches!(v, Val::St(_))) {
+                let mut a = vec![];
+                for (i, v) in t.iter().enumerate() {
+                    match v {
+                        Val::St(f) if i == pos => a.extend(f.iter().cloned()),
+                        o => a.push(o.clone()),
+                    }
+                }
+                add("arg-struct-flattened", base(&a));
+            }
+        }
+        for extra in [Val::U(9), Val::S("x".into())] {
+            let mut a = t.clone();
+            a.push(extra);
+            add("arg-extra", base(&a));
+        }
+        // signature header that does not describe the body bytes' types but has the right
+        // declared signature is not generated: it would be a malformed message (C12's subject).
+    }
+    out
+}
+
+fn case_json(c: &Case) -> serde_json::Value {
+    json!({"method": c.method, "kind": c.kind, "call": c.call.to_json()})
+}
+
+pub fn main(args: &Args) -> i32 {
+    if let Some(p) = &args.replay {
+        return replay(p);
+    }
+    let report = Report::new("C26", args.tier, args.seed, "exploration");
+    let thorough = args.tier == vcommon::Tier::Thorough;
+    let kinds: std::sync::Mutex<BTreeMap<&'static str, u64>> = Default::default();
+    par_for(METHODS.len(), 1, |mi| {
+        let m = &METHODS[mi];
+        let cases = cases_of(m, thorough);
+        let mut b = BankWorld::new();
+        let mut local_kinds: BTreeMap<&'static str, u64> = BTreeMap::new();
+        for (n, mut case) in cases.into_iter().enumerate() {
+            case.call.serial = b.serial();
+            let md = model(&case.call);
+            let obs = run_call(&mut b, &case.call);
+            report.eval(1);
+            *local_kinds.entry(case.kind).or_default() += 1;
+            let canon = (case.method, case.kind, case.call.to_bytes()[12..].to_vec(), case.call.flags);
+            report.nontrivial(hash64(&canon));
+            let oc = observed_class(&obs);
+            report.outcome(&format!("{}: expect {} / got {}", case.kind, short_err(&model_class(&md)), short_err(&oc)));
+            if (mi % 13 == 0 && n % 97 == 5) || (mi == 3 && n == 0) {
+                report.sample(json!({
+                    "case": case_json(&case),
+                    "model": model_class(&md),
+                    "handler_log": format!("{:?}", obs.log),
+                    "replies": obs.replies.iter().map(|r| json!({
+                        "type": r.mtype, "error": r.error_name, "sig": r.sig,
+                        "body": dec_body(&r.sig, &r.body).map(|v| vals_to_json(&v)).unwrap_or(json!("undecodable")),
+                    })).collect::<Vec<_>>(),
+                }));
+            }
+            if b.w.hit_horizon {
+                report.cap("settle guard hit");
+            }
+            for (clause, text) in judge(&case.call, &md, &obs) {
+                let detail = format!(
+                    "{} {}.{} at {} sig {:?} flags {} [{}; method {} {:?} async={} mut={} spawn={} out={:?}]: {}",
+                    case.kind,
+                    case.call.iface.as_deref().unwrap_or("<none>"),
+                    case.call.member.as_deref().unwrap_or("<none>"),
+                    case.call.path.as_deref().unwrap_or("<none>"),
+                    case.call.sig,
+                    case.call.flags,
+                    model_class(&md),
+                    m.rust,
+                    m.fall,
+                    m.is_async,
+                    m.is_mut,
+                    IFACES[m.iface].spawn,
+                    m.out,
+                    text
+                );
+                report.violation(
+                    Violation::new(&clause, detail, case_json(&case))
+                        .feat("kind", case.kind)
+                        .feat("expected", model_class(&md))
+                        .feat("got", &oc)
+                        .feat("no_reply_flag", case.call.flags & F_NO_REPLY != 0)
+                        .feat("sig_relation", sig_relation(&m.ins.concat(), &case.call.sig)),
+                );
+            }
+        }
+        let mut k = kinds.lock().unwrap();
+        for (a, n) in local_kinds {
+            *k.entry(a).or_default() += n;
+        }
+    });
+    report.set("programs", json!(METHODS.len()));
+    report.set("interfaces", json!(IFACES.len()));
+    report.set("registered_paths", json!(ALL_PATHS));
+    report.set("cases_per_kind", json!(*kinds.lock().unwrap()));
+    report.assume("calls are marshalled and replies decoded by the harness' reference codec (bank.rs prelude), not by zbus");
+    report.assume("default schedule: every task is run to quiescence after each call (schedules are C29/C30's subject)");
+    report.assume("a struct result may travel as one struct or as its fields (identical bytes); both signatures are accepted");
+    report.assume("NoReplyExpected: at most one reply, none on the success path (the specification lets a server answer errors)");
+    report.assume("a call without INTERFACE header may be dispatched or refused, but a refusal must use a standard error");
+    report.finish(
+        "every bank method x every call kind x NoReplyExpected off/on; correct calls with the full product of the leaf domains, negative kinds with the first two values of each argument domain (quick) or the full product (thorough); non-trivial = distinct (method, kind, message bytes after the serial)",
+        true,
+    )
+}
+
+fn replay(path: &str) -> i32 {
+    let art = vcommon::load_replay(path);
+    let r = &art["replay"];
+    let Some(mut call) = CallSpec::from_json(&r["call"]) else {
+        vcommon::machinery_failure("replay: bad call spec");
+    };
+    let mut b = BankWorld::new();
+    call.serial = b.serial();
+    let md = model(&call);
+    let obs = run_call(&mut b, &call);
+    println!("call: {}", call.to_json());
+    println!("model: {md:?}");
+    println!("handler log: {:?}", obs.log);
+    for m in &obs.replies {
+        println!(
+            "reply: type={} error={:?} sig={:?} body={:?}",
+            m.mtype,
+            m.error_name,
+            m.sig,
+            dec_body(&m.sig, &m.body)
+        );
+    }
+    println!("other messages: {} panic: {:?} parse error: {:?}", obs.other_msgs, obs.panic, obs.parse_error);
+    let bad = judge(&call, &md, &obs);
+    for (c, t) in &bad {
+        println!("violated clause {c}: {t}");
+    }
+    if bad.is_empty() {
+        println!("no clause violated");
+        0
+    } else {
+        1
+    }
+}
+
+#[allow(unused)]
+fn _uses() {
+    let _ = bank::ALL_PATHS;
 }
